@@ -17,7 +17,7 @@ CFG = cfg('C11', refine=['Refine_armor'], extract='Ex_C11', driver='c11',
 
 TEXT = ('Rocq theorems (Props/C11.v, closed under the global context): dash_unescape (dash_escape t) = t for every text; dash_escape = RFC 7.1 escaping; every escaped line is '
         'safe and a safe line opens no armor block; the rendered frame read back gives the Hash: list, headers, signature packets and the text up to one final CR for every '
-        'ASCII text, every header set, every payload (by the same line-oriented reader as C10); signed octets = RFC 7.1 octets <-> no line ends in SP / TAB; Hash: header lists '
+        'ASCII text, every header set, every payload (by the same line-oriented reader as C10), and likewise after every LF of the armored text became CR LF (text returns with CR LF ends, same signed octets); signed octets = RFC 7.1 octets <-> no line ends in SP / TAB; Hash: header lists '
         'exactly the algorithms used; characterisation: outside the three decidable defect classes text and RFC octets are preserved, inside each class a refutation witness '
         '(trailing blanks signed, non-ASCII text never readable, final lone CR dropped) + the pre-fix CRLF-transport reader refuted. Tie: pinned sources + correspondence of the '
         'extracted model with PGPMessage / PGPKey.sign / verify + independent signer and verifier.',
